@@ -262,45 +262,61 @@ def spanUnit : Bytes → Bytes × Bytes
     if c = 46 || isDig c then ([], c :: cs)
     else let r := spanUnit cs; (c :: r.1, r.2)
 
-/-- the `for s != ""` loop of `time.ParseDuration`; the fractional contribution is exact integer
-    arithmetic here (Go computes it in float64 — equal whenever the fraction has no more digits
-    than the unit resolves, which is all `Duration.String` ever prints) -/
+/-- the optional `.[0-9]*` after the integer part: (f, scale, rest, some digit consumed) -/
+def fractionPart (s1 : Bytes) : Nat × Nat × Bytes × Bool :=
+  match s1 with
+  | 46 :: t => let r := leadingFraction 0 1 false t; (r.1, r.2.1, r.2.2, r.2.2.length != t.length)
+  | _ => (0, 1, s1, false)
+
+/-- one `[0-9]*(\.[0-9]*)?[unit]` component of `time.ParseDuration`: its value in ns and the rest.
+    The fractional contribution is exact integer arithmetic here (Go computes it in float64 — equal
+    whenever the fraction has no more digits than the unit resolves, which is all `Duration.String`
+    ever prints) -/
+def startsNum : Bytes → Bool
+  | [] => false
+  | c :: _ => c = 46 || isDig c
+
+def parseComponent (s : Bytes) : Option (Nat × Bytes) :=
+  if !startsNum s then none
+  else match leadingInt 0 s with
+    | none => none
+    | some (v, s1) =>
+      let fr := fractionPart s1
+      if !(s1.length != s.length) && !fr.2.2.2 then none
+      else
+        let us := spanUnit fr.2.2.1
+        if us.1.isEmpty then none
+        else match unitOf us.1 with
+          | none => none
+          | some unit =>
+            if 2 ^ 63 / unit < v then none
+            else
+              let v2 := if 0 < fr.1 then v * unit + fr.1 * unit / fr.2.1 else v * unit
+              if 0 < fr.1 ∧ 2 ^ 63 < v2 then none else some (v2, us.2)
+
+/-- the `for s != ""` loop of `time.ParseDuration`; `d += v` is a uint64 addition: 2^63 + 2^63 wraps
+    to 0 and passes the overflow test (as in Go) -/
 def parseDurLoop : Nat → Nat → Bytes → Option Nat
   | 0, _, _ => none
   | _ + 1, d, [] => some d
   | fuel + 1, d, c :: cs =>
-    if !(c = 46 || isDig c) then none
-    else match leadingInt 0 (c :: cs) with
-      | none => none
-      | some (v, s1) =>
-        let pre := s1.length != (c :: cs).length
-        let (f, scale, s2, post) :=
-          match s1 with
-          | 46 :: t => let r := leadingFraction 0 1 false t; (r.1, r.2.1, r.2.2, r.2.2.length != t.length)
-          | _ => (0, 1, s1, false)
-        if !pre && !post then none
-        else
-          let (u, s3) := spanUnit s2
-          if u.isEmpty then none
-          else match unitOf u with
-            | none => none
-            | some unit =>
-              if 2 ^ 63 / unit < v then none
-              else
-                let v1 := v * unit
-                let v2 := if 0 < f then v1 + f * unit / scale else v1
-                if 0 < f ∧ 2 ^ 63 < v2 then none
-                else
-                  -- `d += v` is a uint64 addition: 2^63 + 2^63 wraps to 0 and passes the test below (as in Go)
-                  let d' := (d + v2) % 2 ^ 64
-                  if 2 ^ 63 < d' then none else parseDurLoop fuel d' s3
+    match parseComponent (c :: cs) with
+    | none => none
+    | some (v, rest) =>
+      let d' := (d + v) % 2 ^ 64
+      if 2 ^ 63 < d' then none else parseDurLoop fuel d' rest
+
+/-- consume `[-+]?` -/
+def splitSign (s : Bytes) : Bool × Bytes :=
+  match s with
+  | 45 :: r => (true, r)
+  | 43 :: r => (false, r)
+  | _ => (false, s)
 
 /-- `time.ParseDuration` -/
 def parseDuration (s : Bytes) : Res Int :=
-  let (neg, t) := match s with
-    | 45 :: r => (true, r)
-    | 43 :: r => (false, r)
-    | _ => (false, s)
+  let neg := (splitSign s).1
+  let t := (splitSign s).2
   if t = [48] then .ok 0
   else if t.isEmpty then .err .other
   else match parseDurLoop (t.length + 1) 0 t with
